@@ -137,10 +137,19 @@ impl RefValue {
 
 	/// Builds the value through construction route `route`:
 	/// 0 `Object::from_vec`, 1 `push`, 2 parsing the compact text, 3 clone of a pushed value,
-	/// 4 `From` conversions + `FromIterator<(Key, Value)>`, 5 `Extend<Entry>` in two halves + `push_front` for the first entry.
+	/// 4 `From` conversions + `FromIterator<(Key, Value)>`, 5 `Extend<Entry>` in two halves + `push_front` for the first entry,
+	/// 6 parsing a rendering with arbitrary escapes and whitespace.
 	pub fn to_value_route(&self, route: u8) -> Value {
 		use json_syntax::Parse;
-		match route % 6 {
+		match route % 7 {
+			6 => {
+				// parsing a rendering with arbitrary escapes and whitespace (choices derived from the value)
+				let seed = crate::framework::hash64(&crate::refprint::compact(self));
+				let mut x = crate::framework::Mix(seed);
+				let choices: Vec<u8> = (0..256).map(|_| x.next() as u8).collect();
+				let text = crate::gen::render_doc(self, &choices, crate::gen::RenderCfg::FREE);
+				Value::parse_str(&text).map(|x| x.0).unwrap_or_else(|_| self.to_value())
+			}
 			0 => self.to_value(),
 			1 => self.to_value_push(),
 			2 => {
